@@ -60,6 +60,10 @@ func genSpec(cfg Config) *rapid.Generator[spec] {
 			s.Name = rapid.SampledFrom(awkwardNames).Draw(t, "aname")
 		case len(cfg.ExtraNames) > 0 && nk < 60:
 			s.Name = rapid.SampledFrom(cfg.ExtraNames).Draw(t, "xname")
+		case nk >= 88:
+			// a sibling sharing a prefix with another name, continued by a
+			// character that sorts before '/': walk order != sorted-string order
+			s.Name = rapid.SampledFrom(plainNames).Draw(t, "name") + rapid.SampledFrom([]string{".tf", "-x", "+y", " z", ".d", "!", "#1"}).Draw(t, "suffix")
 		default:
 			s.Name = rapid.SampledFrom(plainNames).Draw(t, "name")
 		}
